@@ -184,6 +184,7 @@ func checkC05(r *Report) {
 	cacheOnSuccessRule(r, p)
 	cacheKeyRule(r, p)
 	mapRangeRule(r, p, roots)
+	depOrderTotalRule(r, p, "C05.h/DEP-ORDER-TOTAL")
 	r.Stats["functions_in_scope"] = len(p.Funcs)
 	r.Stats["functions_reachable_from_Resolve"] = len(reach)
 	r.Stats["summary_passes"] = e.passes
